@@ -8,14 +8,23 @@ Import ListNotations.
 Open Scope Z_scope.
 
 Definition spec_of_step (st : sstep) : spec_step :=
-  match st with QCount s e m => SCount s e m | QShard ms => SShard ms | QFdb => SFdb end.
+  match st with QCount s e m => SCount s e m | QShard ms => SShard ms | QFdb => SFdb
+  | QRepeat n s e m => SRepeat n s e m end.
 
 Definition step_ok (keys : list (list Z)) (st : sstep) : Prop :=
   match st with
   | QCount s e m => 0 <= s /\ s + 2 <= e /\ e <= zlen keys /\ 1 <= m
   | QShard ms => 1 <= ms
   | QFdb => True
+  | QRepeat n s e m => 1 <= n /\ 0 <= s /\ s + 2 <= e /\ e <= zlen keys /\ 1 <= m
   end.
+
+(** the model is pure: asking the same question again and again is asking it once *)
+Lemma repeat_last_once n sb s e m : repeat_last n sb s e m = CountPrefixes sb s e m.
+Proof.
+  induction n as [|n IH]; [reflexivity|]. cbn [repeat_last].
+  destruct (CountPrefixes sb s e m); [exact IH|reflexivity].
+Qed.
 
 Theorem session_exact keys steps :
   keys <> [] -> keys_ok keys -> strict_asc keys -> keys_i32 keys -> Forall (step_ok keys) steps ->
@@ -27,11 +36,16 @@ Proof.
   unfold New. rewrite (FirstDiffBits_exact keys Hne Hok). split; [reflexivity|].
   induction Hq as [|st steps Hst Hsteps IH]; [reflexivity|].
   cbn [run_session map spec_session]. fold (spec_session keys (map spec_of_step steps)). rewrite IH.
-  destruct st as [s e m|ms|]; cbn [spec_of_step step_ok] in *.
+  destruct st as [s e m|ms| |n s e m]; cbn [spec_of_step step_ok] in *.
   - destruct Hst as (Hs & He & Hl & Hm).
     destruct (CountPrefixes_exact keys s e m Hok Hasc H32 Hs He Hl Hm) as (sb & HN & _ & _ & HC).
     unfold New in HN. rewrite (FirstDiffBits_exact keys Hne Hok) in HN. injection HN as <-.
     rewrite HC. reflexivity.
   - destruct (ShardByPrefix_correct keys ms Hne Hok Hasc Hst) as (L & B & E & _). rewrite E. reflexivity.
   - rewrite (FirstDiffBits_exact keys Hne Hok). reflexivity.
+  - destruct Hst as (Hn & Hs & He & Hl & Hm).
+    destruct (Z.ltb_spec n 1); [lia|].
+    destruct (CountPrefixes_exact keys s e m Hok Hasc H32 Hs He Hl Hm) as (sb & HN & _ & _ & HC).
+    unfold New in HN. rewrite (FirstDiffBits_exact keys Hne Hok) in HN. injection HN as <-.
+    rewrite HC. reflexivity.
 Qed.
